@@ -485,9 +485,9 @@ func (t *Term) text(b *strings.Builder, names map[int64]string, arg bool) {
 			return
 		}
 		if t.Is("\\+", 1) {
-			b.WriteString("\\+ (")
+			b.WriteString("(\\+ (")
 			t.A[0].text(b, names, false)
-			b.WriteByte(')')
+			b.WriteString("))")
 			return
 		}
 		b.WriteString(QuoteAtom(t.S))
